@@ -222,7 +222,28 @@ def register_function_names(w):
     w.add_contract(Contract(f"{MPS}:<function-counter-sharing>", kind="custom", custom=custom_shared, props=["C03", "C07"], witnesses=["C03_function_identifiers_unique"]))
 
 
+def register_wellformedness_witnesses(w):
+    """Whole-model well-formedness is outside the contracts' reach (external checker / runtime). Two concrete programs that
+    sub-agents reported while exploring are kept as bounded obligations (one program each; never counted as proved)."""
+    def custom(world, c, out):
+        import time
+        from pyvc.run import run_witness
+        t0 = time.time()
+        for oname, wn, bound in (("a_function_that_returns_its_argument_gives_a_loadable_model", "D30", "one program: lambda x: ident(x) + 1.0 with @onnx_function def ident(x): return x"),
+                                 ("a_custom_input_name_equal_to_a_loop_body_value_name_is_rejected_or_harmless", "D31", "one program: fori_loop body value name used as input_names[0]")):
+            holds, detail = run_witness(wn, timeout=900)
+            d = {"oid": f"jax2onnx.user_interface:to_onnx#bounded:{oname}", "kind": "bounded", "status": "discharged" if holds else ("refuted" if holds is False else "unknown"),
+                 "backend": "enumerated", "time": time.time() - t0, "instances": 1, "trivial": 0, "bounded": bound, "note": f"checker(full_check) + strict shape inference + ONNX Runtime load on the exported model; {detail}"[:500]}
+            if holds is False:
+                d.update(args={"witness": wn}, replay={"reproduced": True, "detail": detail}, formula="", model=detail)
+            out["obls"].append(d)
+        out["paths"], out["time"] = 1, time.time() - t0
+        return out
+    w.add_contract(Contract("jax2onnx.user_interface:<wellformedness-witnesses>", kind="custom", custom=custom, props=["C03"], witnesses=["D30", "D31"]))
+
+
 def register_attach(w):
+    register_wellformedness_witnesses(w)
     """_attach_ir_functions: every function attached to the model has its domain (and the default domain) imported."""
     from specs.opaque import OPQ
     sel = z3.Select
